@@ -157,6 +157,8 @@ Definition eqR (f g : SR) : Prop := forall i, f i = g i.
 Definition zeroR : SR := fun _ => r0.
 Definition addR (f g : SR) : SR := fun i => radd (f i) (g i).
 Definition as1 (s : SR) : Z -> R := fun t => s [t].
+(* ConstantPad1d writes zeros: whatever a producer computes for negative times is never read *)
+Definition clip (x : Z -> R) : Z -> R := fun t => if (t <? 0)%Z then r0 else x t.
 Definition of1 (f : Z -> R) : SR := fun i => f (nth 0 i 0%Z).
 Definition as2 (s : SR) : Z -> Z -> R := fun h v => s [h; v].
 Definition of2 (f : Z -> Z -> R) : SR := fun i => f (nth 0 i 0%Z) (nth 1 i 0%Z).
@@ -187,7 +189,7 @@ Definition clayer_pit (l : clayer) (m : list bool) (xs : list SR) : list SR :=
   match l with
   | L1 fold dw w b bn cin K d s tm _ _ =>
       map (fun co => of1 (fun t => pit_conv1d_at r0 r1 radd rmul true fold dw w b bn cin K (Z.of_nat d) (Z.of_nat s) m tm
-                                     (fun ci => padl ((K - 1) * d) (as1 (nth ci xs zeroR))) co t)) (seq 0 (length w))
+                                     (fun ci => padl ((K - 1) * d) (clip (as1 (nth ci xs zeroR)))) co t)) (seq 0 (length w))
   | L2 fold dw w b bn cin kh kw d s ph pw =>
       map (fun co => of2 (fun h v => pit_conv2d_at r0 r1 radd rmul true fold dw w b bn cin kh kw (Z.of_nat d) (Z.of_nat s) (Z.of_nat ph) (Z.of_nat pw) m
                                      (fun ci => as2 (nth ci xs zeroR)) co h v)) (seq 0 (length w))
@@ -200,7 +202,7 @@ Definition clayer_exp (l : clayer) (m min : list bool) (xs' : list SR) : list SR
   | L1 fold dw w b bn cin K d s tm K' sp =>
       map (fun i => of1 (fun t => bn_at r0 radd rmul (if fold then None else slice_bn m bn) i
                          (conv1d_at r0 radd rmul dw (export_w3 dw m min tm w) (export_bias m b) (count_true min) K' (Z.of_nat (sp * d)) (Z.of_nat s)
-                            (fun j => padl ((K' - 1) * (sp * d)) (as1 (nth j xs' zeroR))) i t))) (seq 0 (count_true m))
+                            (fun j => padl ((K' - 1) * (sp * d)) (clip (as1 (nth j xs' zeroR)))) i t))) (seq 0 (count_true m))
   | L2 fold dw w b bn cin kh kw d s ph pw =>
       map (fun i => of2 (fun h v => bn_at r0 radd rmul (if fold then None else slice_bn m bn) i
                          (conv2d_at r0 radd rmul dw (export_w4 dw m min w) (export_bias m b) (count_true min) kh kw (Z.of_nat d) (Z.of_nat s) (Z.of_nat ph) (Z.of_nat pw)
@@ -282,7 +284,7 @@ Definition cwf (n : nat) (net : list cnode) : Prop := cwf_acc n [] net.
 Definition bconst (b : option (list R)) (co : nat) : SR := of0 (match b with Some bl => nth co bl r0 | None => r0 end).
 Definition postbn (bn : option (list R * list R)) (co : nat) (s : SR) : SR := fun i => bn_at r0 radd rmul bn co (s i).
 Definition T1 (w : w3 R) (tm : list bool) (K d s : nat) (co wi : nat) (sg : SR) : SR :=
-  of1 (fun t => taps r0 radd rmul (w3at (mask_w3_time r0 r1 rmul tm w) co wi) K (Z.of_nat d) (padl ((K - 1) * d) (as1 sg)) (Z.of_nat s * t)%Z).
+  of1 (fun t => taps r0 radd rmul (w3at (mask_w3_time r0 r1 rmul tm w) co wi) K (Z.of_nat d) (padl ((K - 1) * d) (clip (as1 sg))) (Z.of_nat s * t)%Z).
 Definition T2 (w : w4 R) (kh kw d s ph pw : nat) (co wi : nat) (sg : SR) : SR :=
   of2 (fun h v => taps2 r0 radd rmul (w4at w co wi) kh kw (Z.of_nat d) (as2 sg) (Z.of_nat s * h - Z.of_nat ph)%Z (Z.of_nat s * v - Z.of_nat pw)%Z).
 Definition T0 (w : list (list R)) (co ci : nat) (sg : SR) : SR := of0 (rmul (nth ci (nth co w []) r0) (as0 sg)).
@@ -305,3 +307,44 @@ Definition node_of (nd : cnode) : node SR :=
   | CCat srcs => NCat SR srcs
   end.
 End Concrete.
+
+(* ================================================================ the executable evaluator Conv.run_net as a network of concrete layers (R = Z) *)
+Definition actZ (f : Z -> Z) (s : SR Z) : SR Z := fun i => f (s i).
+Definition flat_idx (t : tens) (q : nat) : list Z :=
+  match t with
+  | TS2 x => let W := length (nth 0 (nth 0 x []) []) in [Z.of_nat (q / W); Z.of_nat (q mod W)]
+  | _ => [Z.of_nat q]
+  end.
+Definition xtr (x : tens) (acc : list xstate) (nd : xnode) : cnode Z :=
+  match nd with
+  | XIn => CInput Z (tchan x)
+  | XPad src _ _ => CChan Z src (fun s => s)                     (* not covered (excluded by xwf) *)
+  | XConv1 src fold dw w b cin K d s m tm K' d' => CLayer Z src (L1 Z fold dw w b None cin K d s tm K' (d' / d)) m
+  | XConv2 src fold dw w b cin kh kw d s ph pw m => CLayer Z src (L2 Z fold dw w b None cin kh kw d s ph pw) m
+  | XLin src fold w b cin m => CLayer Z src (L0 Z fold w b None cin) m
+  | XAct src six => CChan Z src (actZ (if six then relu6 else relu))
+  | XId src => CChan Z src (fun s => s)
+  | XMaxPool src k => CChan Z src (fun s => s)                   (* not covered (excluded by xwf) *)
+  | XFlatten src => let '(p, _, _) := xget acc src in CExpand Z src (tmult p) (fun q s => of0 Z (s (flat_idx p q)))
+  | XAdd a b => CAdd Z a b
+  | XCat srcs => CCat Z srcs
+  end.
+Fixpoint xtr_run (x : tens) (acc : list xstate) (net : list xnode) : list (cnode Z) :=
+  match net with [] => [] | nd :: rest => xtr x acc nd :: xtr_run x (acc ++ [xstep x acc nd]) rest end.
+Definition xtr_net (net : list xnode) (x : tens) : list (cnode Z) := xtr_run x [] net.
+(* a list tensor as a list of channel functions *)
+Definition emb (t : tens) : list (SR Z) :=
+  match t with
+  | TS1 x => map (fun c => of1 Z (sig1 0%Z c)) x
+  | TS2 x => map (fun c => of2 Z (sig2 0%Z c)) x
+  | TS0 x => map (of0 Z) x
+  | TErr => []
+  end.
+(* a list tensor and a list of channel functions agree on every valid index (all channels of equal length) *)
+Definition agree (t : tens) (l : list (SR Z)) : Prop :=
+  match t with
+  | TS1 x => let n := length (nth 0 x []) in
+             Forall2 (fun c s => length c = n /\ forall tt, tt < n -> s [Z.of_nat tt] = nth tt c 0%Z) x l
+  | TS0 x => Forall2 (fun v s => forall i, s i = v) x l
+  | _ => False
+  end.
